@@ -19,6 +19,8 @@ use rustc_middle::mir::{
     StatementKind, TerminatorKind, UnwindAction,
 };
 use rustc_middle::ty::{self, Instance, Ty, TyCtxt, TypingEnv};
+use rustc_middle::mir::interpret::{GlobalAlloc, Scalar};
+use rustc_middle::mir::ConstValue;
 use rustc_span::Span;
 use std::fmt::Write as _;
 
@@ -221,9 +223,30 @@ impl<'tcx, 'b> Cx<'tcx, 'b> {
             }
         } else if let ty::Ref(_, inner, _) = ty.kind() {
             if inner.is_str() {
-                if let Const::Val(cv, _) = c.const_ {
+                // literals are `Const::Val`; string patterns of a `match` are type-level constants (valtrees)
+                let cv = match c.const_ {
+                    Const::Val(cv, _) => Some(cv),
+                    other => other.eval(self.tcx, self.env, rustc_span::DUMMY_SP).ok(),
+                };
+                if let Some(cv) = cv {
                     if let Some(bytes) = cv.try_get_slice_bytes_for_diagnostics(self.tcx) {
                         o.push(("str", J::s(&String::from_utf8_lossy(bytes))));
+                    }
+                }
+            } else if let ty::Array(elem, len) = inner.kind() {
+                // `&[u8; N]` (byte-string literals, format_args! templates): the raw bytes
+                if *elem == self.tcx.types.u8 {
+                    if let (Const::Val(ConstValue::Scalar(Scalar::Ptr(ptr, _)), _), Some(n)) = (c.const_, len.try_to_target_usize(self.tcx)) {
+                        let (prov, off) = ptr.prov_and_relative_offset();
+                        if let GlobalAlloc::Memory(alloc) = self.tcx.global_alloc(prov.alloc_id()) {
+                            let a = alloc.inner();
+                            let start = off.bytes() as usize;
+                            let end = start + n as usize;
+                            if end <= a.len() {
+                                let bytes = a.inspect_with_uninit_and_ptr_outside_interpreter(start..end);
+                                o.push(("bytes", J::s(&hex(bytes))));
+                            }
+                        }
                     }
                 }
             }
@@ -722,9 +745,31 @@ fn dump_consts<'tcx>(tcx: TyCtxt<'tcx>) -> J {
                 }
             }
         }
+        else if let ty::Ref(_, inner, _) = ty.kind() {
+            // `&'static str` / `&'static [u8]` constants (magic strings, column names): their bytes
+            let is_bytes = match inner.kind() { ty::Slice(e) => *e == tcx.types.u8, _ => false };
+            if (inner.is_str() || is_bytes) && tcx.generics_of(did).count() == 0 {
+                if let Ok(cv) = tcx.const_eval_poly(did) {
+                    if let Some(bytes) = cv.try_get_slice_bytes_for_diagnostics(tcx) {
+                        if inner.is_str() {
+                            o.push(("str", J::s(&String::from_utf8_lossy(bytes))));
+                        }
+                        o.push(("bytes", J::s(&hex(bytes))));
+                    }
+                }
+            }
+        }
         out.push(J::obj(o));
     }
     J::Arr(out)
+}
+
+fn hex(b: &[u8]) -> String {
+    let mut s = String::with_capacity(b.len() * 2);
+    for x in b {
+        s.push_str(&format!("{:02x}", x));
+    }
+    s
 }
 
 fn dump_crate<'tcx>(tcx: TyCtxt<'tcx>) -> J {
